@@ -177,7 +177,10 @@ pub fn check_c09(d: &Driver, pre: &PreState, op: Option<&Op>, info: &OpInfo, out
                 }
             }
         }
-        if matches!(o, Op::Reopen) && pre.gc_stats != cur.gc_stats.iter().map(|g| (g.id, g.len, g.bytes, g.on_disk_bytes)).collect::<Vec<_>>() {
+        // entries of files that already left the version are not statistics of the version
+        let pre_live: Vec<_> = pre.gc_stats.iter().filter(|(id, ..)| pre.blob_files.contains(id)).cloned().collect();
+        let now_live: Vec<_> = cur.gc_stats.iter().filter(|g| files.contains_key(&g.id)).map(|g| (g.id, g.len, g.bytes, g.on_disk_bytes)).collect();
+        if matches!(o, Op::Reopen) && pre_live != now_live {
             out.push(v(
                 "blob:gc-stats-reopen",
                 format!("gc stats changed across reopen: {:?} -> {:?}", pre.gc_stats, cur.gc_stats.iter().map(|g| (g.id, g.len, g.bytes, g.on_disk_bytes)).collect::<Vec<_>>()),
